@@ -27,7 +27,8 @@ Definition kind_eqb (a b : kind) : bool :=
 (* values a field of the kind can hold *)
 Definition kbound (k : kind) : N := match k with KBool => 2 | _ => 256 ^ N.of_nat (kwidth k) end.
 
-Record schema := mkSchema { s_view : N; s_pk : list kind; s_cc : list kind; s_var : bool }.
+(* s_vmin: MinLen constraint of the trailing column (0 = none) *)
+Record schema := mkSchema { s_view : N; s_pk : list kind; s_cc : list kind; s_var : bool; s_vmin : N }.
 
 (* key builder contents: partition fields, fixed-size clustering fields (None = not set), and
    the trailing string/bytes column ([] = not set: HasValue is false for an empty value) *)
@@ -45,10 +46,21 @@ Fixpoint prefix_set (vs : list (option N)) : bool :=
 Definition nonempty (b : bytes) : bool := match b with [] => false | _ => true end.
 
 (* validateViewKey(key, partialClust) *)
-Definition validate_key (s : schema) (partial : bool) (k : vkey) : bool :=
+Definition key_shape_ok (s : schema) (partial : bool) (k : vkey) : bool :=
   all_set (k_p k) &&
   (if partial then prefix_set (k_c k) && (all_set (k_c k) || negb (nonempty (k_v k)))
    else all_set (k_c k) && (negb (s_var s) || nonempty (k_v k))).
+
+(* rowType.putValue checks the field's constraints on whatever is put into the builder - also on
+   the prefix given for a range read; the error surfaces in key.build(), before validateViewKey *)
+Definition constraint_ok (s : schema) (k : vkey) : bool :=
+  negb (nonempty (k_v k)) || (s_vmin s <=? N.of_nat (length (k_v k))).
+
+Definition validate_key (s : schema) (partial : bool) (k : vkey) : bool :=
+  constraint_ok s k && key_shape_ok s partial k.
+
+(* observed code of a refusal: 9 constraint violation (build error), 1 validation error *)
+Definition reject_code (s : schema) (k : vkey) : N := if constraint_ok s k then 1 else 9.
 
 (* storeViewPartKey / storeViewClustKey: fields not set write nothing *)
 Fixpoint enc_fields (ks : list kind) (vs : list (option N)) : bytes :=
@@ -124,7 +136,7 @@ Inductive gres := GVal (n : N) | GNone | GInvalid | GOther.
 Definition view_get (st : vstore) (s : schema) (ws : N) (k : vkey) : gres :=
   if validate_key s false k
   then match get 0%Z st (enc_pkey s ws k) (enc_ccols s k) with Some v => GVal v | None => GNone end
-  else GInvalid.
+  else if constraint_ok s k then GInvalid else GOther.
 
 Definition view_get_batch (st : vstore) (ws : N) (items : list (schema * vkey)) : option (list gres) :=
   if forallb (fun it => validate_key (fst it) false (snd it)) items
@@ -154,7 +166,7 @@ Definition view_read (keeps nk : bool) (st : vstore) (s : schema) (ws : N) (q : 
     let '(rows, ok) := decode_rows s (vals (k_p q))
                          (map (fun kv => (unsafe_key nk (fst kv), snd kv)) (read_raw keeps st s ws q)) in
     (if ok then 0 else 9, rows)
-  else (1, []).
+  else (reject_code s q, []).
 
 (* ---- what the property talks about: rows selected by a partial key ---- *)
 
@@ -247,6 +259,13 @@ Fixpoint resolve2 (views : list schema) (items : list (N * vkey)) : option (list
       end
   end.
 
+(* PutBatch / GetBatch stop at the first key that cannot be built or validated *)
+Fixpoint first_reject (its : list (schema * vkey)) : N :=
+  match its with
+  | [] => 0
+  | (s, k) :: r => if validate_key s false k then first_reject r else reject_code s k
+  end.
+
 Fixpoint agrees_from (nk : bool) (views : list schema) (st : vstore) (ops : list vop) : bool :=
   match ops with
   | [] => true
@@ -256,7 +275,7 @@ Fixpoint agrees_from (nk : bool) (views : list schema) (st : vstore) (ops : list
           let '(st', ok) := view_put st s ws k n in
           shape_ok s k
           && (if ok then (code =? 0) && list_eqb scall_eqb [SPut (enc_pkey s ws k) (enc_ccols s k)] calls
-              else (code =? 1) && list_eqb scall_eqb [] calls)
+              else (code =? reject_code s k) && list_eqb scall_eqb [] calls)
           && agrees_from nk views st' rest
       | None => false
       end
@@ -266,7 +285,7 @@ Fixpoint agrees_from (nk : bool) (views : list schema) (st : vstore) (ops : list
           let '(st', ok) := view_put_batch st ws its in
           (if ok then (code =? 0)
                       && list_eqb scall_eqb [SPutBatch (map (fun it => (fst (fst (batch_item ws it)), snd (fst (batch_item ws it)))) its)] calls
-           else (code =? 1) && list_eqb scall_eqb [] calls)
+           else (code =? first_reject (map fst its)) && list_eqb scall_eqb [] calls)
           && agrees_from nk views st' rest
       | None => false
       end
@@ -275,7 +294,7 @@ Fixpoint agrees_from (nk : bool) (views : list schema) (st : vstore) (ops : list
       | Some s =>
           let m := view_get st s ws k in
           shape_ok s k && gres_eqb m res
-          && list_eqb scall_eqb (match m with GInvalid => [] | _ => [SGet (enc_pkey s ws k) (enc_ccols s k)] end) calls
+          && list_eqb scall_eqb (match m with GInvalid | GOther => [] | _ => [SGet (enc_pkey s ws k) (enc_ccols s k)] end) calls
           && agrees_from nk views st rest
       | None => false
       end
@@ -285,7 +304,7 @@ Fixpoint agrees_from (nk : bool) (views : list schema) (st : vstore) (ops : list
           match view_get_batch st ws its with
           | Some m => (code =? 0) && list_eqb gres_eqb m res
                       && same_calls (map (fun it => SGet (enc_pkey (fst it) ws (snd it)) (enc_ccols (fst it) (snd it))) its) calls
-          | None => (code =? 1) && list_eqb gres_eqb [] res && list_eqb scall_eqb [] calls
+          | None => (code =? first_reject its) && list_eqb gres_eqb [] res && list_eqb scall_eqb [] calls
           end
           && agrees_from nk views st rest
       | None => false
@@ -297,7 +316,7 @@ Fixpoint agrees_from (nk : bool) (views : list schema) (st : vstore) (ops : list
           let c := enc_ccols s q in
           shape_ok s q && (mcode =? code) && list_eqb rrow_eqb mrows rows
           && list_eqb scall_eqb
-               (if mcode =? 1 then [] else [SRead (enc_pkey s ws q) c (fin_of (upper_bound view_incbytes_keeps_length c))]) calls
+               (if validate_key s true q then [SRead (enc_pkey s ws q) c (fin_of (upper_bound view_incbytes_keeps_length c))] else []) calls
           && agrees_from nk views st rest
       | None => false
       end
@@ -346,7 +365,8 @@ Fixpoint ascending_b (ks : list bytes) : bool :=
   end.
 
 Definition read_ok (m : list (lkey * N)) (s : schema) (i ws : N) (q : vkey) (code : N) (rows : list rrow) : bool :=
-  if validate_key s true q then
+  (* a partial key in the sense of the property: all partition fields, leading clustering fields *)
+  if key_shape_ok s true q then
     (code =? 0)
     (* every returned row was written with that value, belongs to the partition, matches the partial key *)
     && forallb (fun r => let k := key_of_row r in
